@@ -2,12 +2,12 @@
 from propslib import fn_scope
 
 PROP = dict(
-    extract=["editor"],
-    lean_targets=["Chewing.Props.C07"],
+    extract=["editor", "capi_keys"],
+    lean_targets=["Chewing.Props.C07", "Chewing.Props.C06CApi"],
     runs=[dict(bin="editor", args=["--profile", "c07"], args_thorough=["--profile", "c07"]),
           dict(bin="capi_props", tag="capi_props", args=["--histories", "300", "--calls", "40"], args_thorough=["--histories", "6000", "--calls", "40"])],
     scope=fn_scope("ed key", "ed select", "ed startsel", "ed cancelsel", "ed jump", "ed setopts", "ed setlayout",
-                   "ed setengine", "ed learn", "ed unlearn", "ed cands"),
+                   "ed setengine", "ed learn", "ed unlearn", "ed cands", "capiops call"),
     level="proof",
     exhaustive=False,
     rule="one evaluation = one step of the real editor (key, select(n), start/cancel_selecting, jump_to_*_selection_point, "
